@@ -71,6 +71,7 @@ enum TaskKind {
     Sleep,
     Panic,
     FnPanic,
+    Block,
 }
 
 #[derive(Clone, Debug)]
@@ -464,6 +465,8 @@ struct TaskLog {
     seq: AtomicUsize,
     recs: Mutex<Vec<StartRec>>,
     counts: Mutex<HashMap<usize, usize>>,
+    /// drop flags of the `pend` futures: all of them must have been dropped when `join` returns
+    guards: Mutex<Vec<(usize, Arc<AtomicBool>)>>,
 }
 
 impl TaskLog {
@@ -510,10 +513,16 @@ fn do_spawn(h: &Sender10, kind: TaskKind, task: usize, log: Arc<TaskLog>) -> boo
             panic!("task {task} panics")
         }),
         TaskKind::Fut => sp!(async move { log.start(task) }),
-        TaskKind::Pend => sp!(async move {
-            log.start(task);
-            std::future::pending::<()>().await
-        }),
+        TaskKind::Pend => {
+            let flag = Arc::new(AtomicBool::new(false));
+            log.guards.lock().unwrap().push((task, flag.clone()));
+            let g = Guard(flag);
+            sp!(async move {
+                let _g = g;
+                log.start(task);
+                std::future::pending::<()>().await
+            })
+        }
         TaskKind::Yield => sp!(async move {
             log.start(task);
             YieldN(2).await;
@@ -525,6 +534,11 @@ fn do_spawn(h: &Sender10, kind: TaskKind, task: usize, log: Arc<TaskLog>) -> boo
         TaskKind::Panic => sp!(async move {
             log.start(task);
             panic!("task {task} panics")
+        }),
+        // keeps the arbiter's thread busy so that later commands pile up in its channel
+        TaskKind::Block => spf!(move || {
+            log.start(task);
+            thread::sleep(Duration::from_micros(1500));
         }),
     }
 }
@@ -570,11 +584,8 @@ fn exec_c10(sc: &Scenario, jseed: u64) -> Out {
         return Out { log: "setup=hang".into(), verdict: "setup=hang".into(), t3: vec![("C10".into(), "setup hang".into())] };
     };
     let sys_id = sys.id();
-    let log = Arc::new(TaskLog { seq: AtomicUsize::new(0), recs: Mutex::new(vec![]), counts: Mutex::new(HashMap::new()) });
+    let log = Arc::new(TaskLog { seq: AtomicUsize::new(0), recs: Mutex::new(vec![]), counts: Mutex::new(HashMap::new()), guards: Mutex::new(vec![]) });
     let handles: Vec<ArbiterHandle> = arbs.iter().map(|a| a.handle()).collect();
-    // loop-ended guards (not part of the command sequence the model sees: they are sent before it
-    // and are never "started" tasks of the scenario — the model treats them as task number 9999)
-    let ended: Vec<Arc<AtomicBool>> = (0..narb).map(|_| Arc::new(AtomicBool::new(false))).collect();
 
     // helper threads with cloned handles
     let mut helper_tx = vec![];
@@ -608,8 +619,11 @@ fn exec_c10(sc: &Scenario, jseed: u64) -> Out {
     // the command sequence, in a global order fixed by this (director) thread
     let mut rets: Vec<bool> = vec![];
     let mut waits: Vec<(usize, bool)> = vec![];
+    let profile = jseed % 3; // 0: burst (no pauses between commands), 1: pauses, 2: a pause now and then
     for c in &sc.cmds {
-        jitter(&mut rng);
+        if profile == 1 || (profile == 2 && rng.chance(1, 4)) {
+            jitter(&mut rng);
+        }
         match c {
             Cmd10::Spawn { arb, via, kind, task } => {
                 let r = match via {
@@ -648,18 +662,27 @@ fn exec_c10(sc: &Scenario, jseed: u64) -> Out {
         let _ = tx.send(HelperMsg::Quit);
     }
 
-    // install the guards now?  No: a guard sent now could be refused.  Instead the loop end is
-    // observed through the thread having finished (join) — and "join returns only after the loop
-    // ended" is checked by: no task start is logged after join returned.
-    let _ = &ended;
+    // "join returns only after the loop has ended": when join has returned, (a) every `pend` future
+    // that had STARTED on that arbiter has been dropped (the LocalSet that owns it is gone) and
+    // (b) no task start is logged afterwards.  (A future still sitting in the channel is not covered:
+    // tokio may keep a message whose send raced the receiver's drop alive until the last sender goes
+    // — observed in 2 of 11 700 runs; that is below the level of this property.)
     let mut joins = vec![];
     let mut seq_at_join = vec![];
     let mut hung = false;
-    for a in arbs {
+    let mut undropped = vec![];
+    for (ai, a) in arbs.into_iter().enumerate() {
         let r = join_watchdog(a, if hung { Duration::from_millis(500) } else { WATCHDOG });
         hung |= r == "hang";
         joins.push(r);
         seq_at_join.push(log.seq.load(Ordering::SeqCst));
+        if r == "ok" {
+            for (t, f) in log.guards.lock().unwrap().iter() {
+                if sc.task_arb[*t] == ai && log.started(*t) && !f.load(Ordering::SeqCst) {
+                    undropped.push(*t);
+                }
+            }
+        }
     }
     // once the arbiter is gone, spawn reports false
     let post: Vec<bool> = handles.iter().map(|h| h.spawn_fn(|| {})).collect();
@@ -713,7 +736,8 @@ fn exec_c10(sc: &Scenario, jseed: u64) -> Out {
     let cur_ok = recs.iter().all(|r| r.has_arb);
     let sys_ok = recs.iter().all(|r| r.sys_id == Some(sys_id));
     let once_ok = counts.values().all(|c| *c <= 1);
-    let late = final_seq != seq_at_join.last().copied().unwrap_or(final_seq)
+    let late = !undropped.is_empty()
+        || final_seq != seq_at_join.last().copied().unwrap_or(final_seq)
         || by_arb.iter().enumerate().any(|(a, rs)| rs.iter().any(|r| r.seq >= seq_at_join[a]));
 
     // ---- T3: the property statement on the observation ----
@@ -766,7 +790,7 @@ fn exec_c10(sc: &Scenario, jseed: u64) -> Out {
         }
     }
     if late {
-        t3.push(("C10".into(), "a task started after join() had returned".into()));
+        t3.push(("C10".into(), format!("join() returned before the loop had ended: a task started afterwards or pending futures {undropped:?} were still alive")));
     }
     if post.iter().any(|b| *b) || post_stop.iter().any(|b| *b) {
         t3.push(("C10".into(), format!("spawn/stop after the arbiter was joined returned true: spawn={post:?} stop={post_stop:?}")));
@@ -1121,6 +1145,7 @@ fn parse_kind(s: &str) -> Option<TaskKind> {
         "sleep" => TaskKind::Sleep,
         "panic" => TaskKind::Panic,
         "fnpanic" => TaskKind::FnPanic,
+        "block" => TaskKind::Block,
         _ => return None,
     })
 }
@@ -1317,7 +1342,7 @@ fn gen_c09(a: &Args, w: &mut dyn Write) {
     writeln!(w, "case bad3\narb running\nstop sys-pre 0\ngo code j=0").unwrap();
 }
 
-const KINDS10: [&str; 7] = ["fn", "fut", "pend", "yield", "sleep", "panic", "fnpanic"];
+const KINDS10: [&str; 8] = ["fn", "fut", "pend", "yield", "sleep", "panic", "fnpanic", "block"];
 const VIAS: [&str; 3] = ["own", "h1", "h2"];
 
 fn gen_c10(a: &Args, w: &mut dyn Write) {
@@ -1325,7 +1350,7 @@ fn gen_c10(a: &Args, w: &mut dyn Write) {
     let thorough = a.tier == "thorough";
     let mut n = 0;
     // (1) seeded random sequences over the full alphabet, 1–2 arbiters
-    let count = if thorough { 600 } else { 70 };
+    let count = if thorough { 800 } else { 90 };
     for _ in 0..count {
         let narb = 1 + rng.below(2);
         writeln!(w, "case r{n} c10").unwrap();
@@ -1333,18 +1358,18 @@ fn gen_c10(a: &Args, w: &mut dyn Write) {
         for _ in 0..narb {
             writeln!(w, "arb").unwrap();
         }
-        let len = rng.range(1, 9);
+        let len = rng.range(1, 10);
         let mut stopped = vec![false; narb];
         let mut tasks: Vec<usize> = vec![]; // task -> arb
-        let style = rng.below(3); // 0: racing stops, 1: wait for the last task then stop, 2: mixed
+        let style = [0, 0, 1, 2][rng.below(4)]; // 0: racing stops, 1: wait for the last task then stop, 2: mixed
         for _ in 0..len {
             let arb = rng.below(narb);
             let via = VIAS[rng.below(3)];
-            if rng.chance(1, 6) && style != 1 {
+            if rng.chance(1, 5) && style != 1 {
                 writeln!(w, "stop {arb} {via}").unwrap();
                 stopped[arb] = true;
             } else {
-                let kind = KINDS10[if rng.chance(1, 2) { rng.below(2) } else { rng.below(7) }];
+                let kind = KINDS10[if rng.chance(1, 3) { rng.below(2) } else { rng.below(8) }];
                 writeln!(w, "spawn {arb} {via} {kind}").unwrap();
                 tasks.push(arb);
                 if style == 2 && rng.chance(1, 4) && !stopped[arb] {
@@ -1371,7 +1396,7 @@ fn gen_c10(a: &Args, w: &mut dyn Write) {
     }
     // (2) thorough: every sequence of length ≤ 5 over a 5-letter alphabet, 3 repetitions
     if thorough {
-        let alpha = ["spawn 0 own fn", "spawn 0 h1 pend", "spawn 0 h2 panic", "stop 0 own", "stop 0 h1"];
+        let alpha = ["spawn 0 own fn", "spawn 0 h1 pend", "spawn 0 h2 block", "stop 0 own", "stop 0 h1"];
         for _rep in 0..3 {
             for len in 1..=5usize {
                 for code in 0..5usize.pow(len as u32) {
